@@ -42,7 +42,11 @@ MODEL_KINDS = ["ConvContract", "LayerNorm", "VN", "MaxNormPool", "ConvBlockGN", 
 
 
 def vmap_case(args):
-    idx, kind, seed = args
+    """storage: "sorted" -- the batch holds its types in sorted (k, parity) order; "unsorted" -- the vector block is stored before
+    the scalar block (vmap / jit rebuild a multi-image from its pytree with sorted keys, the single-entry call keeps the order)"""
+    idx, kind, seed = args[:3]
+    storage = args[3] if len(args) > 3 else "sorted"
+    mode = "conventional" if "Plain" in kind else "equivariant"
     import jax
     import jax.numpy as jnp
     import jax.random as jr
@@ -81,7 +85,9 @@ def vmap_case(args):
     else:
         raise RuntimeError(kind)
     k1, k2, k3, k4 = jr.split(jr.PRNGKey(seed + 99), 4)
-    mk = lambda ka, kb, scale=1.0: geom.MultiImage({(0, 0): scale * jr.normal(ka, (B, 2, N, N)), (1, 0): scale * jr.normal(kb, (B, 2, N, N, D))}, D, True)
+    def mk(ka, kb, scale=1.0):
+        blocks = [((0, 0), scale * jr.normal(ka, (B, 2, N, N))), ((1, 0), scale * jr.normal(kb, (B, 2, N, N, D)))]
+        return geom.MultiImage(dict(blocks if storage == "sorted" else blocks[::-1]), D, True)
     xb = mk(k1, k2)
     fails = []
     try:
@@ -94,7 +100,7 @@ def vmap_case(args):
                 den = max(1e-6, float(np.abs(b).max()))
                 if a.shape != b.shape or float(np.abs(a - b).max()) / den > tol:
                     fails.append({"key": {"what": "vmap(model)(batch)[i] differs from model(batch[i])", "model": kind, "type": list(t), "entry": i,
-                                          "defect": float(np.abs(a - b).max()) / den}})
+                                          "storage": storage, "mode": mode, "defect": float(np.abs(a - b).max()) / den}})
         # replacement invariance: replace / permute the other entries, entry 0's output must not move
         other = mk(k3, k4, scale=7.0)
         xr = geom.MultiImage({t: jnp.concatenate([xb[t][:1], other[t][1:][::-1]]) for t in xb.keys()}, D, True)
@@ -104,9 +110,9 @@ def vmap_case(args):
             den = max(1e-6, float(np.abs(a).max()))
             if float(np.abs(a - b).max()) / den > 1e-6:
                 fails.append({"key": {"what": "output of a batch entry changes when the other entries are replaced", "model": kind, "type": list(t),
-                                      "defect": float(np.abs(a - b).max()) / den}})
+                                      "storage": storage, "mode": mode, "defect": float(np.abs(a - b).max()) / den}})
     except Exception as ex:
-        fails.append({"key": {"what": "raised %s: %s" % (type(ex).__name__, str(ex)[:200]), "model": kind}})
+        fails.append({"key": {"what": "raised %s: %s" % (type(ex).__name__, str(ex)[:200]), "model": kind, "storage": storage, "mode": mode}})
     return fails
 
 
@@ -135,7 +141,12 @@ def main(tier):
                     "leads": h[0]["after"]["leads"], "final_leads": h[-1]["after"]["leads"]} for h in behaviours[200:202]]
     kinds = MODEL_KINDS if tier == "thorough" else MODEL_KINDS[:7]
     reps = 1 if tier == "quick" else 3
-    for fails in core.pmap(vmap_case, [(i, k, core.SEED + 17 * i + r) for r in range(reps) for i, k in enumerate(kinds)], procs=10, crash_value=[]):
+    vjobs = [(i, k, core.SEED + 17 * i + r, "sorted") for r in range(reps) for i, k in enumerate(kinds)]
+    # the same batch with its vector block stored before its scalar block: every kind once (quick: one conventional and four
+    # equivariant kinds) -- see known_findings.json for what the conventional models do with it
+    ukinds = kinds if tier == "thorough" else ["ConvContract", "VN", "ConvBlockGN", "ResNet", "ResNetPlainGN"]
+    vjobs += [(100 + i, k, core.SEED + 31 * i, "unsorted") for i, k in enumerate(ukinds)]
+    for fails in core.pmap(vmap_case, vjobs, procs=12, crash_value=[]):
         chk.evaluations += 1
         for f in fails:
             chk.report(f["key"], payload=f)
@@ -152,7 +163,7 @@ def replay(path):
     core._pool_init()
     if "hist" not in pl:
         k = pl["key"]["model"]
-        fails = vmap_case((0, k, core.SEED))
+        fails = vmap_case((0, k, core.SEED, pl["key"].get("storage", "sorted")))
     else:
         fails, _ = storereplay.replay_chunk([pl["hist"]])
     for f in fails:
